@@ -7,6 +7,7 @@ import GM.Proof.ConvertL
 import GM.Proof.ConvertLTotal
 import GM.Proof.ConvertLTask
 import GM.Proof.ConvertLFlush
+import GM.Proof.ConvertLFlushMerge
 import GM.Props.ConvertX
 
 namespace GM.Props.ConvertL
@@ -130,6 +131,16 @@ theorem conservative_linkify_iff_flush_insensitive :
     rw [← convertl_linkify_is_flush c uc o src h1 h2 h3, h c uc o src h1 h2 h3, convertl_off_is_convertx]
   · intro h c uc o src h1 h2 h3
     rw [convertl_linkify_is_flush c uc o src h1 h2 h3, h c uc o src h1 h2 h3, convertl_off_is_convertx]
+
+/-- `consultation_flush_merges` (flush-insensitivity, inside a line): flushing the pending text `[a, b)` into `parent` and later the
+    text `[b, c)` behind it leaves exactly the children one flush of `[a, c)` leaves — whatever the children are. So a run with
+    an extra consultation (Linkify declining, `nullParser`) and the run without it hold the SAME children again at the next
+    common flush; what stays visible of a consultation is only the cut in front of the end-of-line Text, which parseBlock
+    appends without merging (parser.go:1252-1269) — there the soft / hard break flag and the trailing-blank trim (with its repair
+    for an already flushed blank rest, parser.go:1258-1265) sit, and there the proviso of `ConservativeLinkify` lives. -/
+theorem consultation_flush_merges (kids : List GM.Inl.Node) (s1 s2 : Segment) (h : s1.stop = s2.start) :
+    GM.Inl.mergeOrAppend (GM.Inl.mergeOrAppend kids s1) s2 = GM.Inl.mergeOrAppend kids (s1.withStop s2.stop) :=
+  GM.Proof.ConvertLFlushMerge.mergeOrAppend_twice kids s1 s2 h
 
 /-- `convertx_conservative_linkify`, parser level, on the CONCRETE loop (composes the decline argument of
     GM.Props.C11.linkify_declines for the accept-path model): whatever the state — children, open labels, delimiters —, when
